@@ -127,10 +127,12 @@ def run_scenario(item):
                     elif n2 in outstanding and pcv == 'gone':
                         # the pooler ended this client (e.g. statement timeout): read until it closes
                         outstanding.pop(n2, None)
-                        w.log.add(ev='closing', client=n2)
                         rep = clients[n2].read_reply(timeout=4.0, stop=())
                         if rep.end == 'TIMEOUT':
                             note('client_not_ended', client=n2, got=rep.brief())
+                        # (recorded after the read: what the server still does for the message already sent belongs to this
+                        # client's session)
+                        w.log.add(ev='closing', client=n2)
                         clients[n2].close()
                         # let the late reply of the abandoned statement arrive at (or be discarded with) the connection
                         time.sleep(1.3)
@@ -299,9 +301,24 @@ def run_scenario(item):
                     time.sleep(0.05)
                 w.log.add(ev='cancel_done', client=name)
         # ---- wind down: everyone leaves, wait until pgcat has dropped every client task
+        # (a client that is still waiting for a connection gets it once the others have left: let it finish first, otherwise
+        # its statement runs after the record of its leaving and the ownership bookkeeping of the trace has no end for it)
+        still_waiting = [n2 for n2 in clients if n2 in outstanding and n2 in waited and not clients[n2].dead]
         for name, c in clients.items():
+            if name in still_waiting:
+                continue
             w.log.add(ev='closing', client=name)
             c.close()
+        for name in still_waiting:
+            serials = outstanding.pop(name, [])
+            rep = clients[name].read_reply(timeout=3.0, stop=('Z', 'G'))
+            # served, or told that no connection came within the connect timeout: both are behaviours of the model here
+            for e in rep.echoes():
+                ok = e.get('c') == name and e.get('n') in serials
+                w.log.add(ev='result', client=name, n=e.get('n') if ok else (serials[0] if serials else -1),
+                          echo_c=e.get('c', ''), echo_n=e.get('n', -1), expect=serials)
+            w.log.add(ev='closing', client=name)
+            clients[name].close()
         deadline = time.time() + 5.0
         started = None
         while time.time() < deadline:
@@ -341,6 +358,10 @@ def run_scenario(item):
                 # FATAL error for a moment, and comes back: the whole capacity must be there again
                 for z in probes:
                     z.query('COMMIT')
+                    w.log.add(ev='closing', client=z.name)
+                    z.close()        # (in session mode a connected client keeps its server)
+                probes = []
+                time.sleep(0.1)
                 be.fault('startup_error')
                 time.sleep(0.05)
                 # enough statements while the server is away for the dead pooled connections to be found out and for
